@@ -62,13 +62,13 @@ M = [
   [(HS, "        p2_key.extend_from_slice(&RANDOM_CRUD[..]);\n\n        let hmac1", "        if output_packet[0] == 0xff {\n            p2_key.extend_from_slice(&RANDOM_CRUD[..]);\n        }\n\n        let hmac1", 1)],
   ["C11"]),
  ("M14", "server session: acknowledgement only when the count EXCEEDS the window",
-  [(SRV, "            if self.bytes_received_since_last_ack >= peer_ack_size {", "            if self.bytes_received_since_last_ack > peer_ack_size {", 1)],
+  [(SRV, "            if received >= peer_ack_size as u64 {", "            if received > peer_ack_size as u64 {", 1)],
   ["C17"]),
  ("M15", "client session: acknowledgement counter not reset after acknowledging",
   [(CLI, "                self.bytes_received_since_last_ack = 0;\n                results.push(ClientSessionResult::OutboundResponse(ack_packet));", "                results.push(ClientSessionResult::OutboundResponse(ack_packet));", 1)],
   ["C17"]),
  ("M16", "server session: bytes are counted before the peer announced a window",
-  [(SRV, "        if let Some(peer_ack_size) = self.peer_window_ack_size {\n            self.bytes_received_since_last_ack += bytes.len() as u32;", "        self.bytes_received_since_last_ack += bytes.len() as u32;\n        if let Some(peer_ack_size) = self.peer_window_ack_size {", 1)],
+  [(SRV, "        if let Some(peer_ack_size) = self.peer_window_ack_size {\n            // Count in 64 bits", "        if self.peer_window_ack_size.is_none() {\n            self.bytes_received_since_last_ack = self.bytes_received_since_last_ack.wrapping_add(bytes.len() as u32);\n        }\n\n        if let Some(peer_ack_size) = self.peer_window_ack_size {\n            // Count in 64 bits", 1)],
   ["C17"]),
  ("M17", "server session: play requests reuse the id of the previous request",
   [(SRV, "        let request_number = self.next_request_number;\n        self.next_request_number = self.next_request_number + 1;\n        self.outstanding_requests.insert(request_number, request);\n\n        let event = ServerSessionEvent::PlayStreamRequested {", "        let request_number = self.next_request_number.saturating_sub(1);\n        self.outstanding_requests.insert(request_number, request);\n\n        let event = ServerSessionEvent::PlayStreamRequested {", 1)],
@@ -153,6 +153,8 @@ REVERTS = [
  ("R07", "fix: serialize the play accept packets in the order they are sent", ["C18"]),
  ("R08", "fix: ignore @setDataFrame messages with fewer than two following values", ["C03", "C09"]),
  ("R09", "fix: refuse AMF0 object property names", ["C19"]),
+ ("R10", "fix: a chunk never carries more than the missing part", ["C16"]),
+ ("R11", "fix: count the bytes since the last acknowledgement in 64 bits", ["C17"]),
 ]
 
 
